@@ -244,6 +244,11 @@ func main() {
 			if v.UseDom {
 				emitVerify(v, "ctx-altered", pub, msg, append([]byte("x"), ctx...)[:min(255, len(ctx)+1)], sig)
 				emitVerify(v, "ctx-256", pub, msg, vlib.Bytes(rng, 256), sig)
+				// a signature made BY THE KEY HOLDER for a 256-byte context with the length octet of dom2 / dom4 wrapped to 0: every equation
+				// holds for that hash input, only the context-length rule rejects it
+				c256 := vlib.Bytes(rng, 256)
+				r256 := new(big.Int).Rand(rng, c.L)
+				emitVerify(v, "ctx-256-wrapped-length", pub, msg, c256, forge(v, t.Secret, r256, pub, c.Encode(c.Mul(r256, c.Base())), msg, c256))
 			}
 			// lengths
 			for _, d := range []int{-1, 1} {
